@@ -2461,8 +2461,14 @@ def write_cache_meta(meta: CacheMeta, manager: BuildManager, meta_file: str) -> 
     if not metastore.write(meta_file, meta_bytes):
         # Most likely the error is the replace() call
         # (see https://github.com/python/mypy/issues/3215).
-        # The next run will simply find the cache entry out of date.
         manager.log(f"Error writing cache meta file {meta_file}")
+        # The previous meta file may still match the source file (for example, once an edit
+        # has been undone), while the data and meta_ex files that go with it are replaced
+        # by new ones. Make sure that the next run finds no cache entry at all.
+        try:
+            metastore.remove(meta_file)
+        except OSError:
+            pass
 
 
 def invalidate_cache_meta_ex(meta_file: str, manager: BuildManager) -> bool:
